@@ -602,10 +602,22 @@ func runOne(src string) (toks [][]int64, text string, sig string) {
 	return toks, strings.Join(txt, " "), sig
 }
 
-// coqToks renders the event list compactly: one [kind; hash of the value encoding without the canonical
-// bit; canonical bit] triple per event (Coq compares the triples; the full encoding stays in Obs).
+// coqToks renders the event list compactly: one [kind; 30-bit hash of the value encoding without the
+// canonical bit; canonical bit] triple per event for the first 64 events, then one triple summarising the
+// rest (Coq compares the triples; the full encoding of the first events stays in Obs).
 func coqToks(t [][]int64) string {
-	s := make([]string, len(t))
+	hashOf := func(h uint64, y []int64) uint64 {
+		for _, v := range y {
+			h ^= uint64(v)
+			h *= 1099511628211
+			h ^= h >> 29
+		}
+		return h
+	}
+	var s []string
+	rest := uint64(1469598103934665603)
+	restCanon := int64(1)
+	nrest := 0
 	for i, x := range t {
 		canon := int64(1)
 		y := x
@@ -613,13 +625,19 @@ func coqToks(t [][]int64) string {
 			canon = x[4]
 			y = x[:4]
 		}
-		h := uint64(1469598103934665603)
-		for _, v := range y {
-			h ^= uint64(v)
-			h *= 1099511628211
-			h ^= h >> 29
+		if i < 64 || i == len(t)-1 {
+			h := hashOf(1469598103934665603, y)
+			s = append(s, zlist(x[0], int64(h>>34), canon))
+		} else {
+			rest = hashOf(rest, y)
+			if canon == 0 {
+				restCanon = 0
+			}
+			nrest++
 		}
-		s[i] = zlist(x[0], int64(h>>2), canon)
+	}
+	if nrest > 0 {
+		s = append(s, zlist(7, int64(rest>>34), restCanon))
 	}
 	return vh.CoqList(s)
 }
